@@ -969,6 +969,21 @@ Example vec_lifecycle_safe_nonvacuous :
      EDrop SU 0 110; EDrop SU 1 111; EDrop SU 2 112; EDealloc true; EBalance 0]%N.
 Proof. vm_compute. reflexivity. Qed.
 
+Example box_fallback_safe_nonvacuous :
+  trace (fst (box_fallback (fail_at 7 MErr 100) true 7))
+  = [ERead 0 7; ECall 0 7; EConsumed 0 7; EDealloc true; EReturn RErr]%N /\
+  box_fallback (fail_at 8 MErr 100) true 7
+  = (mk [Freed] false [EReturn ROk; EDealloc true; ECall 0 7; ERead 0 7]%N, [107%N]).
+Proof. vm_compute. split; reflexivity. Qed.
+
+Example box_lifecycle_safe_nonvacuous :
+  trace (caller_inplace true 1 (box_inplace (fail_at 8 MErr 100) 7))
+  = [ERead 0 7; ECall 0 7; EWrite 0 107; EHandOver true; EReturn ROk; EResult 1;
+     EDrop SU 0 107; EDealloc true; EBalance 0]%N /\
+  trace (caller_fresh true (box_fallback (fail_at 7 MPanic 100) true 7))
+  = [ERead 0 7; ECall 0 7; EConsumed 0 7; EDealloc true; EReturn RPanic; EBalance 0]%N.
+Proof. vm_compute. split; reflexivity. Qed.
+
 (** The statement has teeth: three broken guards are refuted by the same machine. *)
 Definition guard_drop_inprogress (real : bool) (mip len : nat) (s : state) : state :=
   (* drops the in-progress element as well: [mip..len] instead of [mip+1..len] *)
